@@ -138,3 +138,9 @@ ADDENDA4 = {'C01': ' Script names include names with digits and operator charact
 for _k, _x in ADDENDA4.items():
     _a = CLAIMED[_k]
     CLAIMED[_k] = (_a[0], _a[1] + _x, _a[2], _a[3])
+
+# additions after the seventh wave
+ADDENDA5 = {'C03': ' A signed name may be followed by more (-x + 1); a tenth of the programs run under a language tag without a configuration.', 'C05': ' X may be a 0x / 0o / 0b literal in the of / on / off phrases.', 'C10': ' Names in a row: two to seven, en and tr.', 'C12': ' Only the amount may be held in a name.', 'C15': ' Based integers whose hexadecimal digits spell a currency code are produced on purpose.', 'C16': ' Lines with a connective directly after a number are re-cased too.', 'C18': ' Tables: a number literal inside a pattern; upgrade codes with a constant offset and zero amounts in the histories.', 'C19': ' The two shipped languages must print the long month name without the year and the short one with it, in their own spelling.', 'C09': ' Printed month names are checked exactly for the two shipped languages.'}
+for _k, _x in ADDENDA5.items():
+    _a = CLAIMED[_k]
+    CLAIMED[_k] = (_a[0], _a[1] + _x, _a[2], _a[3])
